@@ -362,10 +362,17 @@ Proof.
   apply inv_gammap_spec. cbn. apply IZR_lt. lia.
 Qed.
 
-(** Find_Root: the bracket is accepted iff the end values have opposite signs or one of them is zero *)
+(** Find_Root: the bracket is accepted iff the end values have opposite signs or one of them is zero
+    (the source tests Sign(fLeft) * Sign(fRight) >= 0, which is fLeft * fRight >= 0 without forming the product) *)
+Lemma sign_prod_geb_R a b : (sign1 RO a * sign1 RO b >=? 0)%Z = Rleb 0 (a * b).
+Proof.
+  unfold sign1, ngtb. cbn [nltb neqb n0 ROps].
+  destruct (Rltb_spec 0 a); destruct (Rltb_spec 0 b); destruct (Reqb_spec a 0); destruct (Reqb_spec b 0);
+    cbn; destruct (Rleb_spec 0 (a * b)); try reflexivity; exfalso; subst; nra.
+Qed.
 Lemma find_root_spec f a b : decides (guard_find_root RO f a b) (f a * f b < 0 \/ f a = 0 \/ f b = 0).
 Proof.
-  unfold guard_find_root, ngeb. cbn [nltb nisnan nmul nleb neqb n0 ROps orb].
+  unfold guard_find_root. rewrite !sign_prod_geb_R. cbn [nltb nisnan nmul nleb neqb n0 ROps orb].
   destruct (Rltb_spec b a).
   - destruct (Rleb_spec 0 (f b * f a)); [|split; [reflexivity|intros; lra]].
     destruct (Reqb_spec (f b) 0); [split; [reflexivity|tauto]|]. destruct (Reqb_spec (f a) 0); [split; [reflexivity|tauto]|].
